@@ -13,8 +13,12 @@ RULE = ("scenario = initial on-disk logs of 4 partitions (transactions of 1..3 e
         "{direct unconfirmed append, ConfirmTransaction (watermark moves, nothing broadcast), ExecuteTransaction (append+confirm+broadcast), ack, release one history pause point, release all, flush} "
         "and a closing sequence (confirm, one write per partition, flush). 300 such scenarios (quick) / 2400 (thorough); plus 60 / 500 'batches' scenarios (a 52..125-transaction partition so that the "
         "history read takes several batches, the watermark / log / acknowledgements change at the pause point between batches) and 5 / 30 'lag' scenarios (> 1024 events are broadcast while the "
-        "subscription waits at a pause point or for an acknowledgement: Lagged -> history re-read) and 3 / 10 'lag-live' scenarios (a live subscription that holds a received record behind a "
-        "closed window while > 1024 new events are appended, confirmed and broadcast: the events it still needs are dropped and only the re-read delivers them). The subscription task runs freely between steps; the harness waits after each step until the "
+        "subscription waits at a pause point or for an acknowledgement: Lagged -> history re-read) and 2 / 10 'lag-live' scenarios (a live subscription that holds a received record behind a "
+        "closed window while > 1024 new events are appended, confirmed and broadcast: the events it still needs are dropped and only the re-read delivers them). Plus 10 / 30 'history-live-lag-reread' scenarios, 2 / 6 for EACH matcher kind: the history read delivers some events, the subscription goes live and receives 3..5 (+ other partition) "
+        "records through the broadcast that are acknowledged one by one, is then held behind a closed window (window more records unacknowledged, one more received and waiting) while > 1024 events are "
+        "appended (16-event transactions), confirmed by ConfirmTransaction and broadcast at once, so the events it still needs (and queued events of the other partition) are dropped and the re-read "
+        "starts from the positions recorded during live delivery; then 2 more live records; half of them continue with a second lag, either behind a closed window again or while the re-read is held at "
+        "its history pause point (not for the several-streams kind, whose history is not written into). The subscription task runs freely between steps; the harness waits after each step until the "
         "task is provably blocked (hook log). Every scenario is also run through the extracted model (same annotated schedule) and the outputs must be equal. "
         "A case is non-trivial when at least one record was delivered. distinct = distinct case strings.")
 ASSUMPTIONS = [
@@ -235,7 +239,9 @@ def coq_goal(c, e):
 
 def distribution(pairs):
     d = {"kind": {}, "window": {}, "end": {}, "lagged": 0, "records": 0, "history_batches": 0, "multi_batch": 0, "watermark_moved_between_batches": 0,
-         "window_blocked": 0, "start_latest": 0, "bg_subscriber": 0}
+         "window_blocked": 0, "start_latest": 0, "bg_subscriber": 0,
+         # history -> live (>= 3 acknowledged live records) -> lag -> re-read -> live [-> second lag], per matcher kind
+         "hist_live_lag_reread": {}, "hist_live_double_lag": {}, "second_lag_at_pause_point": {}, "min_acked_live_records_before_first_lag": None}
     for c, o in pairs:
         t = c.split()
         if len(t) != 5: continue
@@ -249,6 +255,18 @@ def distribution(pairs):
         hs = [s for s in t[4].split(",") if s.startswith("h") and s != "h-"]
         d["history_batches"] += len(hs); d["multi_batch"] += len(hs) > len(set(h.split(":")[0] for h in hs))
         if re.search(r"h\d+:\d+,(k\d+,)*c\d+=\d+(,[ck]\d+(=\d+)?)*,h\d", t[4]): d["watermark_moved_between_batches"] += 1
+        steps = t[4].split(",")
+        bulk = [i for i, x in enumerate(steps) if re.match(r"^a\d:\d{16}$", x)]
+        if bulk and sub["frm"][0] != "L" and ob["lag"]:
+            hs = [i for i, x in enumerate(steps[:bulk[0]]) if x.startswith("h") and x != "h-"]
+            live_acks = sum(1 for x in steps[(hs[-1] + 1 if hs else 0):bulk[0]] if x.startswith("k"))
+            fam = "hist_live_double_lag" if len(ob["lag"]) >= 2 else "hist_live_lag_reread"
+            d[fam][sub["kind"]] = d[fam].get(sub["kind"], 0) + 1
+            m = d["min_acked_live_records_before_first_lag"]
+            d["min_acked_live_records_before_first_lag"] = live_acks if m is None else min(m, live_acks)
+            # second flood between the K that released the held record and the next pause-point release
+            if len(ob["lag"]) >= 2 and re.search(r"x\d:\d=\d+/\d{4},k\d+,(h\d+:\d+,)?a\d:\d{16}", t[4]):
+                d["second_lag_at_pause_point"][sub["kind"]] = d["second_lag_at_pause_point"].get(sub["kind"], 0) + 1
         d["window_blocked"] += any(x["ack"] is not None for x in ob["ds"]) or ob["end"] == "window"
         d["start_latest"] += sub["frm"][0] == "L"; d["bg_subscriber"] += t[1] == "1"
     return d
